@@ -100,6 +100,7 @@ def run(rep):
             rep.coverage['traces_validated_against_impl'] = rep.coverage.get('traces_validated_against_impl', 0) + len(cases)
         n_docs, n_nodes = doc_level(rep, m, quick)
         nested_validity(rep, m, quick)
+        verdict_paths_agree(rep, m, quick)
         corp.coverage({'final_checks_judged': n_judged, 'impl_model_differences': len(diffs), 'documents_emitted_and_validated': n_docs, 'document_nodes_judged': n_nodes})
     finally:
         corp.close()
@@ -234,6 +235,50 @@ def nested_validity(rep, m, quick):
         rep.finding_or_violation(key, '<%s> inside a serialised <%s> document has the children %s, not a word of its content model (after %s)' % (tag, d['tag'], w, r['ops']),
                                  {'document_built_through_the_api': d, 'history': r['ops'], 'intelligent_choice': bool(ic), 'element': tag, 'children': w, 'emitted': r.get('ic%d' % ic, '')[:2500]})
     rep.coverage['nested_histories'] = {'documents': len(docs), 'serialisations_judged': n_ser, 'nodes_judged': len(items), 'invalid_nodes': nbad}
+
+
+def verdict_paths_agree(rep, m, quick):
+    """the verdict of the container's requirement query (operation f of the histories, what the machines and M_py model) and what the USER sees -
+    to_string() going through XMLElement._final_checks - must agree: for add-only histories on every type (words of the content model, their
+    prefixes and shuffles), children made unchecked so that to_string() speaks about the element itself, to_string() returns iff nothing is required;
+    and a second to_string() / a to_string() after removing the last child must agree with a second query"""
+    from . import impl, rx
+    g = m.g
+    rng = random.Random(rep.seed * 23 + 1)
+    cases = []
+    for t in g['types']:
+        tree = g['templates'][t]
+        ws = rx.words(rx.of_tree(tree), rx.alphabet(tree), 4, 12)
+        rng.shuffle(ws)
+        for w in ws[:3 if quick else 20]:
+            for v in (w, w[:-1], list(reversed(w))):
+                adds = [[0, 'a', x] for x in v]
+                cases.append({'multi': [t], 'ops': adds + [[0, 'f', 0], [0, 's', 0], [0, 'f', 0], [0, 's', 0]] + ([[0, 'r', len(v) - 1], [0, 'f', 0], [0, 's', 0]] if v else []), 'unchecked_children': True})
+    out = impl.run_cases(cases)
+    n = bad = 0
+    seen = set()
+    for c, r in zip(cases, out):
+        if isinstance(r, dict) and 'error' in r:
+            continue
+        last_f = None
+        for op, o in zip(c['ops'], r):
+            if op[1] == 'f':
+                last_f = o
+            elif op[1] == 's' and last_f is not None and last_f['st'] == 'ok' and last_f.get('req') is not None:
+                n += 1
+                passes = last_f['req'] == []
+                ser_ok = o['st'] == 'ok'
+                refused = o['st'] == 'XMLElementChildrenRequired'
+                if (passes and not ser_ok) or (not passes and not refused):
+                    if o['st'] not in ('ok', 'XMLElementChildrenRequired'):
+                        continue              # another kind of failure (recorded findings of C19): not a disagreement about the verdict
+                    bad += 1
+                    if c['multi'][0] not in seen:
+                        seen.add(c['multi'][0])
+                        rep.violation('%s: the requirement query says %s but to_string() %s' % (c['multi'][0], 'nothing is required' if passes else 'required: %s' % last_f['req'],
+                                                                                             'raises ' + o['st'] if not ser_ok else 'returns'),
+                                      {'type': c['multi'][0], 'ops': [op[1:] for op in c['ops']], 'children_unchecked': True})
+    rep.coverage['query_vs_to_string'] = {'verdict_pairs': n, 'disagreements': bad}
 
 
 def replay(path):
